@@ -326,8 +326,10 @@ def check(hist, st):
         for kind in ('array', 'list'):
             rel_in = sh(REL27)
             cart_ref = sh(cart27)
-            rin = rel_in if kind == 'array' else rel_in.tolist()
-            cin = cart_ref if kind == 'array' else cart_ref.tolist()
+            # arrays are handed over as private copies and compared with the originals afterwards: a conversion must
+            # not write into its argument
+            rin = rel_in.copy() if kind == 'array' else rel_in.tolist()
+            cin = cart_ref.copy() if kind == 'array' else cart_ref.tolist()
             try:
                 c1 = box.position_relative_to_cartesian(rin)
             except Exception as e:
@@ -338,6 +340,8 @@ def check(hist, st):
             except Exception as e:
                 bad('cart_to_rel-%s-input' % kind, 'position_cartesian_to_relative(%s %s) raised %s: %s' % (kind, sname, type(e).__name__, e))
                 continue
+            if kind == 'array' and not (np.array_equal(rin, rel_in) and np.array_equal(cin, cart_ref)):
+                bad('convert-modifies-argument', 'a position conversion wrote into the array it was given (shape %s)' % sname)
             if np.shape(c1) != np.shape(rel_in) or np.shape(r1) != np.shape(rel_in):
                 bad('convert-shape', 'shape %s -> %s / %s' % (sname, np.shape(c1), np.shape(r1)))
                 continue
